@@ -817,7 +817,8 @@ func (vc *VC) evalCall(e *SExpr, env *Env) *Val {
 				vc.evalFail(env, "has() needs a map")
 			}
 			dn, ds, _, _ := vc.mapHeaps(mt)
-			return &Val{T: fmt.Sprintf("(select (select %s %s) %s)", vc.getIn(env.st, dn, ds), m.T, vc.mapKey(mt, k.T)), Ty: boolT}
+			// (a nil map has no keys)
+			return &Val{T: fmt.Sprintf("(and (not (= %s 0)) (select (select %s %s) %s))", m.T, vc.getIn(env.st, dn, ds), m.T, vc.mapKey(mt, k.T)), Ty: boolT}
 		case "fresh":
 			x := vc.eval(args[0], env)
 			t := x.T
